@@ -112,8 +112,8 @@ class Spaces:
             return NONE
         if t[0] == "const" and isinstance(t[1], int) and t[1] == 0:
             return RM   # the root node: rank 0 is internal whenever there is at least one minimiser
-        if is_call_to(t, "int", "list", "tuple", "numpy.array", "numpy.asarray") and t[2]:
-            return self.value_space(t[2][0], ft, depth + 1)
+        if is_call_to(t, "int", "list", "tuple", "numpy.array", "numpy.asarray", "reversed", "sorted", "numpy.flip") and t[2]:
+            return self.value_space(t[2][0], ft, depth + 1)            # same values, other order / container
         if is_call_to(t, "numpy.arange") and len(t[2]) == 1:
             return self.size_space(t[2][0])
         if is_call_to(t, "range"):
